@@ -1118,7 +1118,9 @@ def fromFunction(func, interface=None, imlevel=0, name=None):
     method.required = names[:nr]
     method.optional = opt
 
-    argno = na
+    # Keyword-only arguments come right after the positional ones in
+    # ``co_varnames``, before the ``*args`` and ``**kw`` names.
+    argno = na + getattr(code, 'co_kwonlyargcount', 0)
 
     # Determine the function's variable argument's name (i.e. *args)
     if code.co_flags & CO_VARARGS:
